@@ -58,7 +58,7 @@ Lemma timers_post : forall cx s t s1 tg,
     inv g1 s1 /\ tcp_live_inv s1 /\ sinv s1 /\ rx_ok s1 /\ ka_pos s1 /\ s_tuple s1 = Some t /\
     (s_tx_buffer s1 = s_tx_buffer s /\ s_remote_win_len s1 = s_remote_win_len s /\
      s_remote_mss s1 = s_remote_mss s /\ s_tsval_generator s1 = s_tsval_generator s) /\
-    (s_state s1 = Closed \/
+    ((s_state s1 = Closed /\ tcp_timed_out s1 (cx_now cx) = true) \/
      (timer_should_retransmit (s_timer s1) (cx_now cx) = false /\
       is_some (s_remote_last_ts s1) = true /\ tcp_timed_out s1 (cx_now cx) = false)).
 Proof.
@@ -94,8 +94,8 @@ Proof.
   pose proof (dt_pre_lts cx s) as Qlts.
   assert (Q10 : s_rtte (dt_pre cx s) = s_rtte s)
     by (unfold dt_pre; destruct (is_some (s_remote_last_ts s)); reflexivity).
-  destruct (dt_spec _ _ _ _ H) as [(_ & ->) | [(Hto & Hsr & ->) | (Hto & _ & _ & _ & _ & _ & _ & _ & Hlts & Htmo & _ & _ & _ & Hsr & _)]].
-  - left. reflexivity.
+  destruct (dt_spec _ _ _ _ H) as [(Hto & ->) | [(Hto & Hsr & ->) | (Hto & _ & _ & _ & _ & _ & _ & _ & Hlts & Htmo & _ & _ & _ & Hsr & _)]].
+  - left. split; [reflexivity|]. unfold tcp_timed_out in *. sproj. exact Hto.
   - right. auto.
   - right. split; [apply Hsr; rewrite Q10; apply (li_rtte s Hlive)|].
     split; [rewrite Hlts; exact Qlts|]. unfold tcp_timed_out in *. rewrite Hlts, Htmo. exact Hto.
@@ -143,8 +143,8 @@ Proof.
   assert (Hm1 : 0 < emss cx s1) by (destruct Hsinv1 as (_ & X & _); apply emss_pos; assumption).
   pose proof (nu_pos cx s1 Hm1) as Hnu1.
   assert (Hpost : emit_ok_post cx s1 s4 t).
-  { destruct Hcase as [Hcl|(Hnr & _)].
-    - (* timed out or aborted: the RST goes out, the tuple is forgotten *)
+  { destruct Hcase as [(Hcl & _)|(Hnr & _)].
+    - (* timed out: the RST goes out, the tuple is forgotten *)
       destruct (decide_go _ _ _ _ E2) as (-> & _).
       destruct (build_closed _ _ _ _ _ _ _ _ Hcx Hcl E3) as (-> & -> & ->).
       pose proof (finish_n_fields cx s1 repr s4 t4 E4) as X. cbv zeta in X.
@@ -153,7 +153,7 @@ Proof.
                _ _ _ _ _ _ _ _ _ E2 E3 E4). }
   destruct Hpost as [Hn|(Ht4 & Hq & Elts & Eto & Eka & Emss & Efw & Est & Hz4 & Hrx4 & Hlt)].
   - split; [unfold mu; rewrite Hn; lia|left; exact Hn].
-  - destruct Hcase as [Hcl|(Hnr & Hlts & Hto)].
+  - destruct Hcase as [(Hcl & _)|(Hnr & Hlts & Hto)].
     { (* cannot happen: a CLOSED socket forgets its tuple; still, the bound holds *)
       exfalso. destruct (decide_go _ _ _ _ E2) as (-> & _).
       destruct (build_closed _ _ _ _ _ _ _ _ Hcx Hcl E3) as (-> & -> & ->).
